@@ -219,6 +219,28 @@ def runF (cfgS mS ptS h : String) : String :=
     | _ => "panic"
   | _, _ => "bad-case"
 
+/-- `X <hex text>`: every character of the text is a token of its own, tagged with itself; both writers, and what both
+parsers read back (escaping of every scalar value in surface and tag position, in both formats) -/
+def runX (h : String) : String :=
+  match hexToStr? h with
+  | none => "bad-case"
+  | some text =>
+    match Sentence.fromRaw text with
+    | .ok s0 =>
+      let s := { s0 with bounds := List.replicate (text.length - 1) B.W, nTags := 1, tags := text.map fun c => some [c] }
+      let back (r : Res Sentence) : String :=
+        match r with
+        | .ok t => "T" ++ strToHex t.text ++ ";B" ++ String.ofList (t.bounds.map B.toChar) ++ ";K" ++ toString t.nTags ++ ";G" ++ joinWith "." (t.tags.map showTag)
+        | .err _ => "err"
+        | _ => "panic"
+      let w := s.writeTokenized
+      let p := s.writePartial
+      let wb := match w with | .ok x => back (Sentence.fromTokenized x) | _ => "-"
+      let pb := match p with | .ok x => back (Sentence.fromPartial x) | _ => "-"
+      joinWith "|" [showRes strToHex "W" w, showRes strToHex "P" p, wb, pb]
+    | .err _ => "err"
+    | _ => "panic"
+
 end V.Drv
 
 namespace V.Drv
